@@ -388,6 +388,16 @@ impl<CS: CLCiphersuite> ZKPoK<CL03<CS>> {
     {
         let zkpok = self.to_cl03_zkpok();
 
+        // a trusted commitment comes with its commitment key and with its part of the proof, and the other way round;
+        // there is one proof of knowledge and one range proof per hidden attribute
+        if C_trusted.is_some() != commitment_pk.is_some()
+            || C_trusted.is_some() != zkpok.proof_C_Ctrusted.is_some()
+            || zkpok.proofs_commited_mi.len() != unrevealed_message_indexes.len()
+            || zkpok.range_proofs_mi.len() != unrevealed_message_indexes.len()
+        {
+            return false;
+        }
+
         let mut boolean_C_Ctrusted: bool = true;
         if let Some(C_trusted) = C_trusted {
             if let Some(commitment_pk) = commitment_pk {
